@@ -282,6 +282,8 @@ where
 
         //compute the initial error
         let mut norme = _get_refine_error(e, b, K, x);
+        #[cfg(clarabel_verif)]
+        crate::verif_hooks::c12::ir_event(0, crate::verif_hooks::trace::f(normb), crate::verif_hooks::trace::f(norme));
 
         if !norme.is_finite() {
             return false;
@@ -303,6 +305,8 @@ where
             dx.axpby(T::one(), x, T::one());
 
             norme = _get_refine_error(e, b, K, dx);
+            #[cfg(clarabel_verif)]
+            crate::verif_hooks::c12::ir_event(1, crate::verif_hooks::trace::f(lastnorme), crate::verif_hooks::trace::f(norme));
 
             if !norme.is_finite() {
                 return false;
@@ -311,11 +315,17 @@ where
             let improved_ratio = lastnorme / norme;
             if improved_ratio < stopratio {
                 //insufficient improvement.  Exit
+                #[cfg(clarabel_verif)]
+                crate::verif_hooks::c12::ir_event(3, 0.0, 0.0);
                 if improved_ratio > T::one() {
+                    #[cfg(clarabel_verif)]
+                    crate::verif_hooks::c12::ir_event(2, 0.0, 0.0);
                     std::mem::swap(x, dx);
                 }
                 break;
             }
+            #[cfg(clarabel_verif)]
+            crate::verif_hooks::c12::ir_event(4, 0.0, 0.0);
             std::mem::swap(x, dx);
         }
         //NB: "success" means only that we had a finite valued result
@@ -476,6 +486,7 @@ pub(crate) fn verif_fill_signs(m: usize, n: usize, map: &LDLDataMap) -> Vec<i8> 
 }
 
 // drive the private value-update primitives from the verification harness
+// C12 round 3: the solve vectors and a directly driven solve (read-only)
 #[cfg(clarabel_verif)]
 impl<T> DirectLDLKKTSolver<T>
 where
@@ -488,5 +499,17 @@ where
     /// `_scale_values` on this solver's KKT matrix and LDL backend
     pub fn verif_scale_values(&mut self, index: &[usize], scale: T) {
         _scale_values(&mut self.ldlsolver, &mut self.KKT, index, scale);
+    }
+    /// the full solution vector of the last solve (length n+m+p)
+    pub fn verif_x(&self) -> &[T] {
+        &self.x
+    }
+    /// the full right-hand side set by setrhs (length n+m+p)
+    pub fn verif_b(&self) -> &[T] {
+        &self.b
+    }
+    /// name of the backend that was selected
+    pub fn verif_backend_name(&self) -> String {
+        self.ldlsolver.linear_solver_info().name
     }
 }
